@@ -8,6 +8,12 @@ CONSTANTS
  DelAll = TRUE
  GridMargin = 2
  PairGrid = 4
+ AnisoBases = {"tetra","prism","octa","hexprism","box"}
+ AnisoFactors = {3, 10, 400, 10000}
+ AnisoBigFactors = {10, 400, 10000}
+ AnisoPairs = TRUE
+ AnisoRewind = TRUE
+ AnisoDupFaces = 12
 SPECIFICATION Spec
 VIEW View
 INVARIANT TypeOK
@@ -16,5 +22,6 @@ INVARIANT CompsAgree
 INVARIANT RefOK
 INVARIANT PairTruth
 INVARIANT ObsOK
+INVARIANT StretchInvariant
 PROPERTY StepOK
 CHECK_DEADLOCK FALSE
